@@ -1,2 +1,70 @@
--- driver stub (replaced when the model for C17 is built)
-def main : IO Unit := pure ()
+import PyTough.Model.Names
+import PyTough.Py.Proto
+open Py Model.Names
+
+/-- strings travel as `x<hex>` so that the empty string is a token -/
+def unx (s : String) : Str := ofHex (s.drop 1).toString
+def enx (s : Str) : String := "x" ++ toHex s
+def unxList (s : String) : List Str := if s = "-" then [] else (s.splitOn ",").map unx
+def enxList (l : List Str) : String := if l.isEmpty then "-" else ",".intercalate (l.map enx)
+def unxPairs (s : String) : SDict :=
+  if s = "-" then [] else (s.splitOn ",").map fun kv =>
+    match kv.splitOn ":" with
+    | [k, v] => (unx k, unx v)
+    | _ => ([], [])
+def enxPairs (d : SDict) : String :=
+  if d.isEmpty then "-" else ",".intercalate (d.map fun (k, v) => enx k ++ ":" ++ enx v)
+def nat (s : String) : Nat := s.toNat?.getD 0
+def flag (s : String) : Bool := s = "1"
+def natList (s : String) : List Nat := if s = "-" then [] else (s.splitOn ",").map nat
+
+def hashNames (l : List Str) : UInt64 :=
+  l.foldl (fun h name => (name.foldl (fun h c => h * 1000003 + c.toNat.toUInt64 + 1) h) * 1000003 + 7) 0
+
+def showOpt : Option Str → String
+  | some s => enx s
+  | none => "none"
+
+def caseOf (s : String) : Option Bool := if s = "n" then none else if s = "l" then some true else some false
+
+def showRect (full : Bool) (r : RectNames) : String :=
+  if full then s!"{enxList r.nodes} {enxList r.cols} {enxList r.layers} {enxList r.blocks}"
+  else s!"{r.nodes.length}:{hashNames r.nodes} {r.cols.length}:{hashNames r.cols} {r.layers.length}:{hashNames r.layers} {r.blocks.length}:{hashNames r.blocks}"
+
+def handle : List String → String
+  | ["itc", i, st, chars, spaces, length] => showExc enx (intToChars (nat i) (unx st) (unx chars) (flag spaces) (nat length))
+  | ["ndk", istart, left, length, chars, spaces, keys] =>
+      showExc (fun (p : Str × Nat) => s!"{enx p.1} {p.2}")
+        (newDictKey (unxList keys) (nat istart) (flag left) (nat length) (unx chars) (flag spaces))
+  | ["uniq", s] => "ok " ++ enx (uniqstring (unx s))
+  | ["fix", s] => showExc enx (fixBlockname (unx s))
+  | ["unfix", s] => "ok " ++ enx (unfixBlockname (unx s))
+  | ["valid", s] => showExc (fun (b : Bool) => if b then "1" else "0") (validBlockname (unx s))
+  | ["fbm", d] => showExc enxPairs (fixBlockMapping (unxPairs d))
+  | ["str", n] => "ok " ++ enx (natStr (nat n))
+  | ["colname", conv, s] => "ok " ++ showOpt (columnName (nat conv) (unx s))
+  | ["layname", conv, s] => "ok " ++ showOpt (layerName (nat conv) (unx s))
+  | ["blk", conv, lay, col, bm] => showExc enx (blockName (nat conv) (unx lay) (unx col) (unxPairs bm))
+  | ["ncn", conv, num, left, chars, spaces] =>
+      showExc enx (nodeColNameFromNumber (nat conv) (nat num) (flag left) (unx chars) (flag spaces))
+  | ["cnn", conv, num, left, chars, spaces] =>
+      showExc enx (columnNameFromNumber (nat conv) (nat num) (flag left) (unx chars) (flag spaces))
+  | ["nnn", conv, num, left, chars, spaces] =>
+      showExc enx (nodeNameFromNumber (nat conv) (nat num) (flag left) (unx chars) (flag spaces))
+  | ["lnn", conv, num, left, chars, spaces] =>
+      showExc enx (layerNameFromNumber (nat conv) (nat num) (flag left) (unx chars) (flag spaces))
+  | ["nnew", conv, istart, left, chars, spaces, keys] =>
+      showExc (fun (p : Str × Nat) => s!"{enx p.1} {p.2}")
+        (newNodeName (nat conv) (unxList keys) (nat istart) (flag left) (unx chars) (flag spaces))
+  | ["addl", conv, m, left, chars, spaces] =>
+      showExc enxList (addLayers (nat conv) (nat m) (flag left) (unx chars) (flag spaces))
+  | ["bnl", conv, atmos, layers, cols, first] =>
+      let fl := (natList first).toArray
+      showExc enxList (blockNameList (nat conv) (nat atmos) (unxList layers) (unxList cols)
+        (fun l c => decide (fl.getD c 1 ≤ l)))
+  | ["rect", full, nx, ny, nz, conv, atmos, left, case, chars, spaces] =>
+      showExc (showRect (flag full))
+        (rectangular (nat nx) (nat ny) (nat nz) (nat conv) (nat atmos) (flag left) (caseOf case) (unx chars) (flag spaces))
+  | _ => "bad-op"
+
+def main : IO Unit := serve handle
